@@ -555,6 +555,7 @@ def worldOp (st : Option DState) (op : String) (args tr : List String) : Option 
   | "faultleak", [_, _], st => (st, "faultleak")
   | "vcert", _, st => (st, vcertModel args tr)
   | "tlsconn", _, st => (st, tlsconnModel args tr)
+  | "tlsdial", _, st => (st, tlsdialModel args tr)
   | "dnsqx", _, st => (st, "dnsqx")
   | "fault", _, st => (st, "fault")         -- the outcome under an allocation failure is judged by the monitor, not predicted
   | _, _, some d =>
